@@ -143,3 +143,21 @@ gaps_shape!(c03_gaps_001, [false, false, true]);
 gaps_shape!(c03_gaps_110, [true, true, false]);
 gaps_shape!(c03_gaps_010, [false, true, false]);
 gaps_shape!(c03_gaps_000, [false, false, false]);
+
+// concrete witnesses (NO symbolic input; ordinary tests run through the same tool chain): malformed temporary ids with
+// trailing characters after the number, longer than the symbolic harnesses reach
+macro_rules! tempid_witness {
+    ($name:ident, $lit:expr, $want:expr) => {
+        #[kani::proof]
+        #[kani::unwind(12)]
+        fn $name() {
+            let got = resolve_temp_id($lit);
+            assert!(got == $want, "only '!', a capital letter and nothing but decimal digits is a temporary id");
+            kani::cover!(true, "reached");
+        }
+    };
+}
+tempid_witness!(c03_witness_trailing_letter, "!A0x", None);
+tempid_witness!(c03_witness_trailing_space, "!A12 ", None);
+tempid_witness!(c03_witness_two_ids, "!A0!A1", None);
+tempid_witness!(c03_witness_wellformed_long, "!A1234567", Some(1234567));
